@@ -6,44 +6,42 @@
  *   - precondition RULE_OK = what bus_match_rule_set_* / bus_match_rule_parse establish (units C07.setters, C07.parse);
  *   - postcondition: result == the specification's match predicate (spec/match_ref.h), memory safety.
  * -DVERIF_ASSUME_NONEMPTY_PATHARG: additionally assume that an argNpath value is not empty (unit C07.match.nonempty);
- *  WITHOUT it (unit C07.match) the precondition admits argNpath='' because the parser accepts it. */
+ *  WITHOUT it (unit C07.match) the precondition admits argNpath='' because the parser accepts it.
+ *
+ * Everything outside the real function is loop-free and call-free where DFCC instruments it (spec expressions are
+ * macros over ghost copies of the strings): DFCC instrumentation of helper loops made symbolic execution explode. */
 #include <config.h>
 #include "dbus/dbus-internals.h"
 #include "verif_prelude.h"
-#include "verif_ghost.h"
-#include "match_ref.h"
+#define C07_GHOST_DEFINE
+#include "c07_ghost.h"
 #include <stdlib.h>
-long verif_gk, verif_gk2, verif_w, verif_w2; int verif_flag;
-/* ---- ghost state of the iterator contract ---- */
-int verif_it_calls, verif_it_pos, verif_it_end;
-int verif_cur_type; const char *verif_cur_str; int verif_cur_len;     /* argument delivered by the latest get_arg_type */
-int verif_rec_type; int verif_rec_len; char verif_rec_buf[REF_MAXS + 1]; /* copy of the argument with index verif_gk */
-/* the rule's argument match with index verif_gk, copied by the harness before the call (the matcher does not write the
- * rule): set?, kind, length, value.  Invariants talk about these scalars instead of dereferencing rule->args[verif_gk]
- * (each dereference inside an invariant costs six generated pointer checks, three times). */
-_Bool verif_gk_set; int verif_gk_kind; long verif_gk_len; char verif_gk_val[REF_MAXS + 1];
-#define C07_ARG_SPEC_GK(t, a, al) (!verif_gk_set || REF_ARGM (verif_gk_kind, verif_gk_val, verif_gk_len, t, a, (long) (al)))
-/* representation -> specification: kind and value of the k-th argument match of a rule */
+/* ghost state of the iterator contract (declared in c07_ghost.h):
+ *   verif_it_calls/_pos/_end; verif_cur_* = the argument delivered by the latest get_arg_type (ghost copy);
+ *   verif_rec_* = ghost copy of the message argument with index verif_gk;
+ *   verif_argstore = the string-like argument as it lies in the message body;
+ *   verif_gk_* = the rule's argument match with index verif_gk, copied by the harness before the call (the matcher does
+ *   not write the rule).  Invariants talk about these scalars instead of dereferencing rule->args[verif_gk] (each
+ *   dereference inside an invariant costs six generated pointer checks, three times). */
+unsigned char *verif_argblk; unsigned verif_argn; _Bool verif_arg_le;
+/* representation -> specification: kind and length of an argument match */
 #define C07_KIND(l) (((l) & BUS_MATCH_ARG_IS_PATH) ? REF_ARG_PATH : ((l) & BUS_MATCH_ARG_NAMESPACE) ? REF_ARG_NAMESPACE : REF_ARG_PLAIN)
 #define C07_LEN(l) ((long) ((l) & ~BUS_MATCH_ARG_FLAGS))
 #include VERIF_TU
-#define IMP(a, b) (!(a) || (b))
-#define REACH(tag) __CPROVER_assert(0, "REACH:" tag)
-#define PRE(c, what) __CPROVER_assert((c), "precondition of " what)
-_Bool nondet_bool (void); int nondet_int (void); unsigned nondet_uint (void); char nondet_char (void);
+#include "c07_common.h"
 
 /* ---- message facts (ghost inputs, havocked in the harness) ---- */
 static DBusMessage *g_msg; static BusMatchRule *g_rule; static DBusConnection *g_sender, *g_addressed;
-static int f_type; static const char *f_interface, *f_member, *f_path, *f_destination;
-static _Bool g_owns_sender, g_owns_dest;      /* name-registry facts: sender owns rule->sender, addressed owns rule->destination */
+static int f_type; static VStr FI, FM, FP, FD;      /* interface, member, path, destination of the message (p == NULL: absent) */
+static _Bool g_owns_sender, g_owns_dest;            /* name-registry facts: sender owns rule->sender, addressed owns rule->destination */
 static int g_owner_queries;
 
 /* ---- contracts as stubs ---- */
 int verif_stub_get_type (DBusMessage *m) { PRE (m == g_msg, "dbus_message_get_type: the message being matched"); return f_type; }
-const char *verif_stub_get_interface (DBusMessage *m) { PRE (m == g_msg, "dbus_message_get_interface"); return f_interface; }
-const char *verif_stub_get_member (DBusMessage *m) { PRE (m == g_msg, "dbus_message_get_member"); return f_member; }
-const char *verif_stub_get_path (DBusMessage *m) { PRE (m == g_msg, "dbus_message_get_path"); return f_path; }
-const char *verif_stub_get_destination (DBusMessage *m) { PRE (m == g_msg, "dbus_message_get_destination"); return f_destination; }
+const char *verif_stub_get_interface (DBusMessage *m) { PRE (m == g_msg, "dbus_message_get_interface"); return FI.p; }
+const char *verif_stub_get_member (DBusMessage *m) { PRE (m == g_msg, "dbus_message_get_member"); return FM.p; }
+const char *verif_stub_get_path (DBusMessage *m) { PRE (m == g_msg, "dbus_message_get_path"); return FP.p; }
+const char *verif_stub_get_destination (DBusMessage *m) { PRE (m == g_msg, "dbus_message_get_destination"); return FD.p; }
 /* connection_is_primary_owner(c, name): a fact of the name registry; only the two questions the specification needs
  * may be asked (does the sender own the rule's sender name; does the addressed recipient own the rule's destination) */
 dbus_bool_t verif_stub_is_primary_owner (DBusConnection *c, const char *name)
@@ -58,28 +56,31 @@ dbus_bool_t verif_stub_is_primary_owner (DBusConnection *c, const char *name)
 dbus_bool_t verif_stub_iter_init (DBusMessage *m, DBusMessageIter *it)
 { PRE (m == g_msg && it != NULL, "dbus_message_iter_init"); verif_it_calls = 0; verif_it_pos = 0; verif_it_end = 0; return nondet_bool (); }
 /* dbus_message_iter_get_arg_type: type of the current argument; DBUS_TYPE_INVALID at the end (and from then on).
- * String-like arguments point into the message body: 4-byte length word, bytes without NUL, NUL (wire format). */
-#define NZ(k) if ((k) < n) __CPROVER_assume (s[k] != 0)
-#define CP(k) verif_rec_buf[k] = ((k) <= n) ? s[k] : 0
+ * A string-like argument lies in the message body: 4-byte length word, bytes without NUL, NUL (wire format).
+ * DFCC forbids allocation inside a contract loop, so the body fragment is one region verif_argblk of 4+n+1 bytes
+ * (n arbitrary, fixed by the harness; the region is the tail of the static array verif_argstore, so that the byte
+ * after the NUL is out of bounds) whose content is chosen afresh at every call: for the single arbitrary
+ * iteration a loop contract leaves, that is an arbitrary string of arbitrary length <= REF_MAXS. */
+#define C07_ARGB(k) { char c = 0; if ((k) < n) { c = nondet_char (); __CPROVER_assume (c != 0); s[k] = c; } verif_cur_v[k] = c; }
+#define C07_REC(k) verif_rec_buf[k] = verif_cur_v[k];
 int verif_stub_iter_get_arg_type (DBusMessageIter *it)
 {
-  int t; char *s = NULL; unsigned n = 0;
+  int t; unsigned n = 0;
   PRE (verif_it_end || verif_it_pos == verif_it_calls, "dbus_message_iter_get_arg_type: iterator advanced exactly once per argument index");
   if (verif_it_end) t = DBUS_TYPE_INVALID; else { t = nondet_int (); if (t == DBUS_TYPE_INVALID) verif_it_end = 1; }
   if (t == DBUS_TYPE_STRING || t == DBUS_TYPE_OBJECT_PATH)
     {
-      n = nondet_uint (); __CPROVER_assume (n <= REF_MAXS);
-      unsigned char *blk = malloc (4 + n + 1); __CPROVER_assume (blk != NULL);
-      if (nondet_bool ()) { blk[0] = n; blk[1] = 0; blk[2] = 0; blk[3] = 0; } else { blk[0] = 0; blk[1] = 0; blk[2] = 0; blk[3] = n; }
-      s = (char *) blk + 4;
-      NZ (0); NZ (1); NZ (2); NZ (3); NZ (4); NZ (5); NZ (6); NZ (7);
-      s[n] = 0;
+      char *s = (char *) verif_argblk + 4; n = verif_argn;
+      if (verif_arg_le) { verif_argblk[0] = n; verif_argblk[1] = 0; verif_argblk[2] = 0; verif_argblk[3] = 0; }   /* length word, little endian */
+      else { verif_argblk[0] = 0; verif_argblk[1] = 0; verif_argblk[2] = 0; verif_argblk[3] = n; }                  /* big endian */
+      C07_ARGB (0) C07_ARGB (1) C07_ARGB (2) C07_ARGB (3) C07_ARGB (4) C07_ARGB (5) C07_ARGB (6) C07_ARGB (7)
+      s[n] = 0; verif_cur_v[REF_MAXS] = 0;
     }
-  verif_cur_type = t; verif_cur_str = s; verif_cur_len = (int) n;
+  verif_cur_type = t; verif_cur_len = (int) n;
   if (verif_it_calls == verif_gk)
     {
       verif_rec_type = t; verif_rec_len = (int) n;
-      if (s != NULL) { CP (0); CP (1); CP (2); CP (3); CP (4); CP (5); CP (6); CP (7); CP (8); }
+      C07_REC (0) C07_REC (1) C07_REC (2) C07_REC (3) C07_REC (4) C07_REC (5) C07_REC (6) C07_REC (7) C07_REC (8)
     }
   verif_it_calls++;
   return t;
@@ -88,65 +89,71 @@ void verif_stub_iter_get_basic (DBusMessageIter *it, void *value)
 {
   PRE (verif_cur_type == DBUS_TYPE_STRING || verif_cur_type == DBUS_TYPE_OBJECT_PATH, "dbus_message_iter_get_basic into a char*: current argument is a string or object path");
   PRE (value != NULL, "dbus_message_iter_get_basic: value");
-  *(const char **) value = verif_cur_str;
+  *(const char **) value = (const char *) verif_argblk + 4;
 }
 dbus_bool_t verif_stub_iter_next (DBusMessageIter *it)
 { PRE (!verif_it_end, "dbus_message_iter_next: there is a current argument"); verif_it_pos++; return nondet_bool (); }
 
-/* a NUL-terminated heap string of symbolic length <= REF_MAXS and symbolic content (exactly n+1 bytes) */
-static char *mk_str (void)
-{
-  unsigned n = nondet_uint (); __CPROVER_assume (n <= REF_MAXS);
-  char *s = malloc (n + 1); __CPROVER_assume (s != NULL);
-  NZ (0); NZ (1); NZ (2); NZ (3); NZ (4); NZ (5); NZ (6); NZ (7);
-  s[n] = 0; return s;
-}
 #define MAXARGS (DBUS_MAXIMUM_MATCH_RULE_ARG_NUMBER + 1)
+#define OPT_VSTR(s) if (nondet_bool ()) mk_vstr (&(s)); else no_vstr (&(s))
 
 void harness (void)
 {
-  BusMatchRule r; static char mo, so, ao;
+  BusMatchRule r; static char mo, so, ao; VStr RI, RM, RS, RD, RP, B; char *AA[MAXARGS + 1]; unsigned int LL[MAXARGS + 1];
   g_msg = (DBusMessage *) &mo; g_rule = &r;
   g_sender = nondet_bool () ? (DBusConnection *) &so : NULL;
   g_addressed = nondet_bool () ? (DBusConnection *) &ao : (nondet_bool () ? g_sender : NULL);
   /* ---- message facts ---- */
   f_type = nondet_int ();
-  f_interface = nondet_bool () ? mk_str () : NULL; f_member = nondet_bool () ? mk_str () : NULL;
-  f_path = nondet_bool () ? mk_str () : NULL; f_destination = nondet_bool () ? mk_str () : NULL;
+  OPT_VSTR (FI); OPT_VSTR (FM); OPT_VSTR (FP); OPT_VSTR (FD);
   g_owns_sender = nondet_bool (); g_owns_dest = nondet_bool (); g_owner_queries = 0;
+  verif_argn = nondet_uint (); __CPROVER_assume (verif_argn <= REF_MAXS);
+  verif_argblk = &verif_argstore[REF_MAXS - verif_argn];
+  verif_arg_le = nondet_bool ();   /* byte order of the message */
   /* ---- RULE_OK ---- */
   r.refcount = 1; r.matches_go_to = NULL; r.flags = nondet_uint ();
   __CPROVER_assume ((r.flags & ~0x1ffu) == 0);
   __CPROVER_assume (!((r.flags & BUS_MATCH_PATH) && (r.flags & BUS_MATCH_PATH_NAMESPACE)));   /* bus_match_rule_set_path clears both, sets one */
   r.message_type = nondet_int ();
   __CPROVER_assume (IMP (r.flags & BUS_MATCH_MESSAGE_TYPE, r.message_type != DBUS_MESSAGE_TYPE_INVALID));  /* parser: type value is one of the four names */
-  r.interface = (r.flags & BUS_MATCH_INTERFACE) ? mk_str () : NULL;
-  r.member = (r.flags & BUS_MATCH_MEMBER) ? mk_str () : NULL;
-  r.sender = (r.flags & BUS_MATCH_SENDER) ? mk_str () : NULL;
-  r.destination = (r.flags & BUS_MATCH_DESTINATION) ? mk_str () : NULL;
-  r.path = (r.flags & (BUS_MATCH_PATH | BUS_MATCH_PATH_NAMESPACE)) ? mk_str () : NULL;
+  if (r.flags & BUS_MATCH_INTERFACE) mk_vstr (&RI); else no_vstr (&RI);
+  if (r.flags & BUS_MATCH_MEMBER) mk_vstr (&RM); else no_vstr (&RM);
+  if (r.flags & BUS_MATCH_DESTINATION) mk_vstr (&RD); else no_vstr (&RD);
+  if (r.flags & (BUS_MATCH_PATH | BUS_MATCH_PATH_NAMESPACE)) mk_vstr (&RP); else no_vstr (&RP);
+  __CPROVER_assume (IMP (r.flags & (BUS_MATCH_PATH | BUS_MATCH_PATH_NAMESPACE), RP.len >= 1 && RP.v[0] == '/'));   /* parser: value passed _dbus_validate_path (C16.path: begins with '/') */
+  if (!(r.flags & BUS_MATCH_SENDER)) no_vstr (&RS);
+  else if (nondet_bool ()) mk_vstr (&RS);
+  else
+    { /* the one name longer than the symbolic bound that the matcher treats specially */
+      static const char bus[] = "org.freedesktop.DBus"; no_vstr (&RS);
+      RS.p = malloc (sizeof bus); __CPROVER_assume (RS.p != NULL); 
+#define CB(k) RS.p[k] = bus[k];
+      CB (0) CB (1) CB (2) CB (3) CB (4) CB (5) CB (6) CB (7) CB (8) CB (9) CB (10) CB (11) CB (12) CB (13) CB (14) CB (15) CB (16) CB (17) CB (18) CB (19) CB (20)
+      RS.len = sizeof bus - 1; RS.is_dbus = 1;
+    }
+  r.interface = RI.p; r.member = RM.p; r.sender = RS.p; r.destination = RD.p; r.path = RP.p;
   r.args = NULL; r.arg_lens = NULL; r.args_len = 0;
-  unsigned L = 0; char *B = NULL; int n = 0;
+  int n = 0; no_vstr (&B);
   if (r.flags & BUS_MATCH_ARGS)
     {
       /* args / arg_lens: n+1 slots, slot n is the NULL / 0 terminator; a set slot k holds a NUL-terminated block of
        * exactly (arg_lens[k] & ~FLAGS)+1 bytes.  The matcher only reads, so all set slots may share one symbolic
-       * block B (length L): for the single arbitrary iteration the loop contract leaves, that is fully general. */
+       * block B: for the single arbitrary iteration the loop contract leaves, that is fully general. */
       n = nondet_int (); __CPROVER_assume (n >= 1 && n <= MAXARGS);
-      L = nondet_uint (); __CPROVER_assume (L <= REF_MAXS);
-      B = malloc (L + 1); __CPROVER_assume (B != NULL); B[L] = 0;
-      r.args = malloc (sizeof (char *) * (n + 1)); r.arg_lens = malloc (sizeof (unsigned int) * (n + 1));
-      __CPROVER_assume (r.args != NULL && r.arg_lens != NULL);
-      for (int k = 0; k < MAXARGS; k++) if (k < n)
+      mk_vstr (&B);
+      /* the two arrays are the last n+1 slots of fixed arrays of MAXARGS+1 slots (so that slot n+1 is out of bounds);
+       * every slot is chosen independently (pointers are assigned, not assumed: CBMC dereferences through value sets) */
+      r.args = &AA[MAXARGS - n]; r.arg_lens = &LL[MAXARGS - n];
+      for (int k = 0; k < MAXARGS; k++)
         {
-          if (nondet_bool ()) { r.args[k] = NULL; r.arg_lens[k] = 0; }
+          if (nondet_bool ()) { AA[k] = NULL; LL[k] = 0; }
           else
             {
-              unsigned fl = nondet_bool () ? 0 : (nondet_bool () ? BUS_MATCH_ARG_IS_PATH : BUS_MATCH_ARG_NAMESPACE);  /* the parser never sets both */
+              unsigned fl = nondet_bool () ? 0 : (nondet_bool () ? BUS_MATCH_ARG_IS_PATH : BUS_MATCH_ARG_NAMESPACE);   /* the parser never sets both flags */
 #ifdef VERIF_ASSUME_NONEMPTY_PATHARG
-              __CPROVER_assume (!(fl == BUS_MATCH_ARG_IS_PATH && L == 0));
+              __CPROVER_assume (!(fl == BUS_MATCH_ARG_IS_PATH && B.len == 0));
 #endif
-              r.args[k] = B; r.arg_lens[k] = L | fl;
+              AA[k] = B.p; LL[k] = (unsigned) B.len | fl;
             }
         }
       r.args[n] = NULL; r.arg_lens[n] = 0; r.args_len = n;
@@ -155,50 +162,66 @@ void harness (void)
    * indexed by message type and interface) ---- */
   unsigned am = nondet_uint (); __CPROVER_assume ((am & ~(unsigned) (BUS_MATCH_MESSAGE_TYPE | BUS_MATCH_INTERFACE)) == 0);
   __CPROVER_assume (IMP ((am & r.flags & BUS_MATCH_MESSAGE_TYPE), r.message_type == f_type));
-  __CPROVER_assume (IMP ((am & r.flags & BUS_MATCH_INTERFACE), f_interface != NULL && ref_streq (f_interface, r.interface)));
+  __CPROVER_assume (IMP ((am & r.flags & BUS_MATCH_INTERFACE), FI.p != NULL && VSTR_EQ (FI, RI)));
   /* ghost index (arbitrary, never assigned afterwards) and the copy of the rule's argument match at that index */
   verif_gk = nondet_int (); verif_gk_set = 0; verif_gk_kind = 0; verif_gk_len = 0;
+  verif_gk_val[0] = B.v[0]; verif_gk_val[1] = B.v[1]; verif_gk_val[2] = B.v[2]; verif_gk_val[3] = B.v[3]; verif_gk_val[4] = B.v[4];
+  verif_gk_val[5] = B.v[5]; verif_gk_val[6] = B.v[6]; verif_gk_val[7] = B.v[7]; verif_gk_val[8] = B.v[8];
   if ((r.flags & BUS_MATCH_ARGS) && verif_gk >= 0 && verif_gk < n && r.args[verif_gk] != NULL)
-    {
-      verif_gk_set = 1; verif_gk_kind = C07_KIND (r.arg_lens[verif_gk]); verif_gk_len = C07_LEN (r.arg_lens[verif_gk]);
-      for (int k = 0; k <= REF_MAXS; k++) verif_gk_val[k] = (k <= verif_gk_len) ? r.args[verif_gk][k] : 0;
-    }
-  verif_w = -1; verif_it_calls = 0; verif_it_pos = 0; verif_it_end = 0; verif_rec_type = 0; verif_rec_len = 0; verif_cur_type = 0; verif_cur_str = NULL; verif_cur_len = 0;
+    { verif_gk_set = 1; verif_gk_kind = C07_KIND (r.arg_lens[verif_gk]); verif_gk_len = C07_LEN (r.arg_lens[verif_gk]); }
+  verif_w = -1; verif_it_calls = 0; verif_it_pos = 0; verif_it_end = 0; verif_rec_type = 0; verif_rec_len = 0; verif_cur_type = 0; verif_cur_len = 0;
 
   dbus_bool_t ret = match_rule_matches (&r, g_sender, g_addressed, g_msg, (BusMatchFlags) am);
 
-  /* ---- specification ---- */
-  RefRule rr; RefMsgFacts mf;
-  rr.has_type = (r.flags & BUS_MATCH_MESSAGE_TYPE) != 0; rr.type = r.message_type;
-  rr.sender = r.sender; rr.interface = r.interface; rr.member = r.member; rr.destination = r.destination;
-  rr.path = (r.flags & BUS_MATCH_PATH) ? r.path : NULL; rr.path_namespace = (r.flags & BUS_MATCH_PATH_NAMESPACE) ? r.path : NULL;
-  rr.eavesdrop = (r.flags & BUS_MATCH_CLIENT_IS_EAVESDROPPING) != 0;
-  mf.type = f_type; mf.interface = f_interface; mf.member = f_member; mf.path = f_path; mf.destination = f_destination;
-  mf.sender_is_bus = (g_sender == NULL); mf.recipient_is_conn = (g_addressed != NULL);
-  int hdr = ref_header_matches (&rr, &mf, g_owns_sender, g_owns_dest);
-  int has_args = (r.flags & BUS_MATCH_ARGS) != 0;
+  /* ---- specification (conjunct by conjunct; the same text as ref_header_matches in spec/match_ref.h, on the ghost
+   *      copies; unit C07.ref_lemma shows that the two forms agree) ---- */
+  /* type: "Match on the message type." */
+  _Bool c_type = IMP (r.flags & BUS_MATCH_MESSAGE_TYPE, r.message_type == f_type);
+  /* sender: "Match messages sent by a particular sender."; the bus driver sends as org.freedesktop.DBus */
+  _Bool c_sender = IMP (r.flags & BUS_MATCH_SENDER, g_sender == NULL ? RS.is_dbus : g_owns_sender);
+  /* interface: "If a message omits the interface header, it must not match any rule that specifies this key." */
+  _Bool c_iface = IMP (r.flags & BUS_MATCH_INTERFACE, FI.p != NULL && VSTR_EQ (FI, RI));
+  /* member: "Matches messages which have the give method or signal name." */
+  _Bool c_member = IMP (r.flags & BUS_MATCH_MEMBER, FM.p != NULL && VSTR_EQ (FM, RM));
+  /* path: "Matches messages which are sent from or to the given object." */
+  _Bool c_path = IMP (r.flags & BUS_MATCH_PATH, FP.p != NULL && VSTR_EQ (FP, RP));
+  /* path_namespace: "... the object path is either the given value, or that value followed by one or more path components." */
+  _Bool c_pathns = IMP (r.flags & BUS_MATCH_PATH_NAMESPACE, FP.p != NULL && REF_PATH_IN_NS_N (FP.v, FP.len, RP.v, RP.len));
+  /* destination: "Matches messages which are being sent to the given unique name." */
+  _Bool c_dest = IMP (r.flags & BUS_MATCH_DESTINATION, FD.p != NULL && (g_addressed != NULL ? g_owns_dest : VSTR_EQ (RD, FD)));
+  /* eavesdrop: "match rules do not match messages which have a DESTINATION field unless the match rule specifically
+   * requests this ... by specifying eavesdrop='true'" */
+  _Bool c_eaves = IMP (FD.p != NULL, (r.flags & BUS_MATCH_CLIENT_IS_EAVESDROPPING) != 0);
+  _Bool hdr = c_type && c_sender && c_iface && c_member && c_path && c_pathns && c_dest && c_eaves;
+  _Bool has_args = (r.flags & BUS_MATCH_ARGS) != 0;
+  int wkind = 0; _Bool wset = 0;
+  if (has_args && verif_w >= 0 && verif_w < n) { wset = (r.args[verif_w] != NULL); wkind = C07_KIND (r.arg_lens[verif_w]); }
   __CPROVER_assert (ret == 0 || ret == 1, "post0 result is a boolean");
-  __CPROVER_assert (IMP (ret, hdr), "post1 match => every header key of the rule matches per specification (type, sender, interface, member, path, path_namespace, destination, eavesdrop)");
+  __CPROVER_assert (IMP (ret, c_type), "post1a match => type key matches");
+  __CPROVER_assert (IMP (ret, c_sender), "post1b match => sender key matches (the sender owns the name; the bus driver is org.freedesktop.DBus)");
+  __CPROVER_assert (IMP (ret, c_iface), "post1c match => interface key matches (absent interface never matches)");
+  __CPROVER_assert (IMP (ret, c_member), "post1d match => member key matches");
+  __CPROVER_assert (IMP (ret, c_path), "post1e match => path key matches");
+  __CPROVER_assert (IMP (ret, c_pathns), "post1f match => path_namespace key matches (value itself or value followed by path components)");
+  __CPROVER_assert (IMP (ret, c_dest), "post1g match => destination key matches");
+  __CPROVER_assert (IMP (ret, c_eaves), "post1h match => message has no DESTINATION or the rule says eavesdrop='true'");
   __CPROVER_assert (IMP (ret && has_args, G_AT (verif_gk, n, C07_ARG_SPEC_GK (verif_rec_type, verif_rec_buf, verif_rec_len))),
                     "post2 match => every argument match (argN / argNpath / arg0namespace) is satisfied per specification");
   __CPROVER_assert (IMP (!ret && verif_w < 0, !hdr), "post3 no match, decided before the arguments => a header key does not match per specification");
-  __CPROVER_assert (IMP (!ret && verif_w >= 0, has_args && verif_w < n && verif_it_calls == verif_w + 1 && r.args[verif_w] != NULL &&
-                         !ref_arg_matches (C07_KIND (r.arg_lens[verif_w]), r.args[verif_w], C07_LEN (r.arg_lens[verif_w]), verif_cur_type, verif_cur_str, verif_cur_len)),
+  __CPROVER_assert (IMP (!ret && verif_w >= 0, has_args && verif_w < n && verif_it_calls == verif_w + 1 && wset &&
+                         !REF_ARGM (wkind, B.v, B.len, verif_cur_type, verif_cur_v, (long) verif_cur_len)),
                     "post4 no match, decided at argument w => the rule's match on argument w is not satisfied per specification");
   __CPROVER_assert (IMP (ret && has_args, verif_it_calls == n), "post5 match => every argument index of the rule was examined");
   __CPROVER_assert (g_owner_queries <= 2, "post6 at most the two name-registry questions");
-  /* lemma: the macro form of the argument predicate (used in the invariant) equals the plain C form */
-  if (has_args && verif_w >= 0 && verif_w < n && r.args[verif_w] != NULL && (verif_cur_type == DBUS_TYPE_STRING || verif_cur_type == DBUS_TYPE_OBJECT_PATH))
-    __CPROVER_assert (REF_ARGM (C07_KIND (r.arg_lens[verif_w]), r.args[verif_w], C07_LEN (r.arg_lens[verif_w]), verif_cur_type, verif_cur_str, verif_cur_len)
-                      == ref_arg_matches (C07_KIND (r.arg_lens[verif_w]), r.args[verif_w], C07_LEN (r.arg_lens[verif_w]), verif_cur_type, verif_cur_str, verif_cur_len),
-                      "lemma macro and function forms of the argument predicate agree");
   if (ret) REACH ("match"); else REACH ("no-match");
   if (ret && has_args && n >= 2) REACH ("match-with-args");
   if (!ret && verif_w >= 1) REACH ("arg-mismatch");
   if (!ret && verif_w < 0 && !has_args) REACH ("header-mismatch");
-  if (ret && (r.flags & BUS_MATCH_PATH_NAMESPACE)) REACH ("match-path-namespace");
+  if (ret && (r.flags & BUS_MATCH_PATH_NAMESPACE) && FP.len > RP.len && RP.len > 1) REACH ("match-path-namespace");
   if (ret && (r.flags & BUS_MATCH_DESTINATION)) REACH ("match-destination");
   if (ret && (r.flags & BUS_MATCH_SENDER) && g_sender) REACH ("match-sender");
-  if (ret && has_args && verif_gk >= 0 && verif_gk < n && r.args[verif_gk] && (r.arg_lens[verif_gk] & BUS_MATCH_ARG_IS_PATH) && verif_rec_len != (int) L) REACH ("match-argpath-prefix");
-  if (ret && has_args && verif_gk >= 0 && verif_gk < n && r.args[verif_gk] && (r.arg_lens[verif_gk] & BUS_MATCH_ARG_NAMESPACE) && verif_rec_len != (int) L) REACH ("match-arg0namespace-prefix");
+  if (ret && (r.flags & BUS_MATCH_SENDER) && !g_sender) REACH ("match-sender-bus-driver");
+  if (ret && verif_gk_set && verif_gk_kind == REF_ARG_PATH && verif_rec_len > B.len) REACH ("match-argpath-rule-is-prefix");
+  if (ret && verif_gk_set && verif_gk_kind == REF_ARG_PATH && verif_rec_len < B.len) REACH ("match-argpath-arg-is-prefix");
+  if (ret && verif_gk_set && verif_gk_kind == REF_ARG_NAMESPACE && verif_rec_len > B.len) REACH ("match-arg0namespace-prefix");
 }
